@@ -27,6 +27,9 @@ def run(ctx):
     tasks = [{"seed": ctx.seed, "shard": i, "count": 8 if quick else 120, "steps": 60 if quick else 120, "nmax": 8, "big": 1 if quick else 4, "big_steps": 20,
               "monitors": ["serial"]} for i in range(shards)]
     ctx.map("vlib.histrun", "history_task", tasks, timeout=3000)
+    # the same with assert statements switched off (python -O)
+    otasks = [dict(t, shard=100 + t["shard"], count=max(3, t["count"] // 4), big=0) for t in tasks[:4 if quick else 16]]
+    ctx.map("vlib.histrun", "history_task", otasks, timeout=3000, python_flags=("-O",))
     c19.run_configs(ctx, n_runs=48 if quick else 4000, focus="trace", chains=not quick or True)
     for k, m in (("serial_roundtrips", 200), ("serial_followup_evaluations", 500), ("trace_entries_checked", 100)):
         if ctx.counters.get(k, 0) < m:
